@@ -1,14 +1,15 @@
-import Falcon.Lemmas.CodecSpec
+import Falcon.Lemmas.CodecRefine
 import Falcon.Gen.Params
 
 /-!
 # C07 — signature compression is lossless and canonical (Algorithms 17/18)
 
-The theorems below are about the bit-level reference codec `Falcon.Spec` (Algorithm 17/18 with the
-library's magnitude cap).  The byte-level model `Falcon.Codec` of `encoding.rs` (every index and
-shift of the Rust code) is tied to it by `Falcon/Props/C07Refine.lean` where proved, and otherwise by
-the correspondence check, which runs real code, byte-level model and reference on the same inputs
-(complete for all byte strings of length ≤ 2, and ≤ 3 in the thorough tier).
+The bit-level reference codec `Falcon.Spec` (Algorithm 17/18 with the library's magnitude cap) is what the
+property means.  `decompress_refines` shows that the byte-level model `Falcon.Codec.decompress` of
+`encoding.rs` (every index, shift and OR of the Rust code) computes exactly that reference on every byte string;
+the remaining theorems are about the reference and transfer to the byte-level model through it.  (The
+byte-level `compress` is tied to the reference by the correspondence check, which runs real code, byte-level
+model and reference on the same inputs.)
 -/
 namespace Falcon.Props.C07
 open Falcon Falcon.Spec
@@ -18,6 +19,12 @@ open Falcon Falcon.Spec
 theorem source_constants :
     Gen.unaryCapMid = 95 ∧ Gen.unaryCapLast = 95 ∧ Gen.guardMid = 9 ∧ Gen.guardLast = 8 ∧ 95 * 128 = 12160 :=
   ⟨rfl, rfl, rfl, rfl, rfl⟩
+
+/-- **refinement**: the byte-level model of `decompress` (indices, shifts, ORs, deferred "-0" flag, two-stage
+    padding check) is Algorithm 18 with the cap, for every byte string, every n ≥ 1, both build modes -/
+theorem decompress_refines (chk : Bool) (x : List Nat) (hx : ∀ b ∈ x, b < 256) (n : Nat) (hn : 1 ≤ n) :
+    Codec.decompress chk x n = .ok (decompressRef 95 x n) :=
+  Codec.decompress_eq_spec chk x hx n hn
 
 /-- compression fails exactly when the vector is empty or its encoding does not fit the byte budget -/
 theorem compress_fits_iff (v : List Int) (L : Nat) :
@@ -85,6 +92,13 @@ theorem decompress_injective (x y : List Nat) (n : Nat) (v : List Int)
   rw [hl] at a
   rw [a] at b
   exact Option.some.inj b
+
+/-- hence the byte-level decompressor is canonical: whatever it accepts is the unique encoding of what it returns -/
+theorem decompress_bytes_canonical (chk : Bool) (x : List Nat) (hx : ∀ b ∈ x, b < 256) (n : Nat) (hn : 1 ≤ n) (v : List Int)
+    (h : Codec.decompress chk x n = .ok (some v)) :
+    compressRef v x.length = some x ∧ v.length = n ∧ (∀ c ∈ v, c.natAbs < 12160) := by
+  rw [decompress_refines chk x hx n hn] at h
+  exact decompress_canonical x n v hx (Res.ok.inj h)
 
 /-! ### the rejected shapes, stated outright -/
 
